@@ -1,4 +1,5 @@
 import MobiusModel.FileOps
+import MobiusModel.AcctLoader
 /-!
   C07 — All filesystem effects stay inside the file root / the accounts directory.
 
@@ -203,5 +204,44 @@ theorem old_root_wrapper_escapes : ∃ root : Path, ∃ q ∈ wrapperPaths root,
 theorem old_account_update_escapes :
     ∃ dir login, ¬ (dir <+: joinRaw dir (PathAlg.splitSlash (login ++ yamlSfx))) :=
   ⟨[[85]], [46, 46, 47, 120], by decide⟩
+
+-- ---------------------------------------------------------------- wave d: the account loader (restarts)
+
+/-- Start-up (`NewYAMLAccountManager`): for every matched file, whatever login it holds — i.e. whatever bytes a client
+    once supplied to create or rename an account — the file, the name the login prescribes for it, and the arguments of
+    the legacy-format re-save all lie strictly below the accounts directory. -/
+theorem account_loader_paths_contained (dir : Path) (e : LoadEntry) :
+    ∀ q ∈ acctLoadPaths dir e, dir <+: q ∧ q ≠ dir :=
+  acctLoadPaths_under dir e
+
+/-- The loader changes nothing outside the accounts directory, for every list of matched files (names, logins inside,
+    legacy flags) and every file system. -/
+theorem account_loader_outside_unchanged (dir : Path) (fs : FS) (es : List LoadEntry) (x : Path) (hx : ¬ dir <+: x) :
+    lookup (acctLoad fs dir es) x = lookup fs x :=
+  acctLoad_keeps dir es fs x hx
+
+/-- Histories with restarts: any sequence of create / rename / update / delete requests and restarts (each restart
+    with any matched-file list), with any logins, leaves everything outside the accounts directory as it was. -/
+theorem account_history_with_restarts_outside_unchanged (dir : Path) (fs : FS) (ops : List AcctOp) (x : Path)
+    (hx : ¬ dir <+: x) : lookup (acctHistory fs dir ops) x = lookup fs x :=
+  acctHistory_keeps dir ops fs x hx
+
+/-- an account created with login `../../evil` is stored as `evil.yaml`; after a rename interrupted by a crash the
+    file is called `b.yaml`: the restart moves it back to `<dir>/evil.yaml` — inside. -/
+def exLoaderFS : FS := [([[99]], .dir), ([[99], [85]], .dir), ([[99], [85], [98] ++ yamlSfx], .file [1])]
+def exEvil : Bytes := [46, 46, 47, 46, 46, 47, 101, 118, 105, 108]
+
+example : acctLoadPaths [[99], [85]] { name := [98] ++ yamlSfx, login := exEvil } =
+    [[[99], [85], [98] ++ yamlSfx], [[99], [85], [101, 118, 105, 108] ++ yamlSfx]] := by decide
+example : lookup (acctHistory exLoaderFS [[99], [85]] [.restart [{ name := [98] ++ yamlSfx, login := exEvil }]])
+    [[99], [85], [101, 118, 105, 108] ++ yamlSfx] = some (.file [1]) := by decide
+example : lookup (acctHistory exLoaderFS [[99], [85]] [.restart [{ name := [98] ++ yamlSfx, login := exEvil }]])
+    [[99], [85], [98] ++ yamlSfx] = none := by decide
+
+/-- The shape the loader must not have (and the seeded change C07d-3 gave it): the prescribed name joined from the RAW
+    login leaves the accounts directory — and the configuration directory. -/
+theorem raw_loader_name_escapes :
+    ∃ dir login, ¬ (dir <+: acctFileRaw dir login) ∧ ¬ (dir.dropLast <+: acctFileRaw dir login) :=
+  ⟨[[99], [85]], exEvil, by decide⟩
 
 end Mobius.C07
